@@ -7,6 +7,7 @@ import (
 	"strings"
 	"sync"
 
+	"github.com/nlnwa/whatwg-url/canonicalizer"
 	"github.com/nlnwa/whatwg-url/url"
 	"golang.org/x/net/idna"
 )
@@ -184,6 +185,20 @@ func init() {
 						if f[fSpecial] == "1" && strings.Contains(f[fQuery], "'") {
 							continue
 						}
+						// the two shapes in which the standard's own protocol setter does not round-trip are confirmed, for pure
+						// setter histories, by running the Spec's setter steps on the same history; the Spec has no SearchParams
+						// operations, so in a mixed history those two shapes are left to the pure-setter families
+						if f[fScheme] == "file" && f[fOpaque] == "0" && (driveLetterSeg.MatchString(f[fPathname]) || f[fHostname] == "localhost") {
+							mixed := false
+							for _, o := range hc.ops[:k+1] {
+								if o.K != "s" {
+									mixed = true
+								}
+							}
+							if mixed {
+								continue
+							}
+						}
 						check(hc, k, f)
 					}
 				}
@@ -296,6 +311,8 @@ func init() {
 					c.Report(Finding{Class: "violation", What: "derived accessor clauses failing (Model/Preds.v acc_obs): " + r, Case: hc.Case(upto), Impl: strings.Join(f, " | ")})
 				}
 			}
+			// the accessors of values that were never parsed (NewUrl() and what the setters make of it) are compared with the model
+			famNewUrlHist(c, defaultCfg, 4000*c.Scale, "new-url-histories")
 			famParse(c, defaultCfg, 10000*c.Scale, allButVerrs, false, "parse", func(d *Driver, base *string, input string, io Obs, idx int) {
 				if io.Kind == "U" {
 					check(d, histCase{defaultCfg, base, input, nil, "parse", idx}, -1, io.Fields)
@@ -524,6 +541,50 @@ func init() {
 					c13Replay(c, hc)
 				})
 			}
+			// results that take over parts of the base: a fragment-only or empty reference against every base shape (an opaque path
+			// ending in spaces, a path with empty segments, a drive letter, credentials and port), then every removal and a change on
+			// the result; and a clone canonicalized by every predefined profile (its Iterate callback edits pairs in place)
+			{
+				bases := []string{"data:text/plain,hello   #top", "sc:opaque  ?q#f", "mailto:a@b ", "http://u:p@h:8/a//b/?x=1&y=%41#f", "file:///C:/a/b?x#f", "sc://h/p/?a=b%20c&&d#f", "http://h/?a=%7E&a=b+c"}
+				refs := []string{"#sec", "", "?n=1", "#", "x"}
+				tails := [][]Op{{{K: "s", Slot: 1, W: 8, A: ""}}, {{K: "s", Slot: 1, W: 7, A: ""}}, {{K: "s", Slot: 1, W: 8, A: ""}, {K: "s", Slot: 1, W: 7, A: ""}}, {{K: "s", Slot: 1, W: 6, A: "/z"}}, {{K: "t", Slot: 1, A: "a", B: "9"}}, {{K: "i", Slot: 1, W: 1}}, {{K: "o", Slot: 1}}, {{K: "T"}, {K: "i", Slot: 1, W: 1}, {K: "d", Slot: 1, A: "a"}}}
+				c.Pool.Run(len(bases)*len(refs)*len(tails)*2, func(d *Driver, i int) {
+					b, ref, tail := bases[i%len(bases)], refs[i/len(bases)%len(refs)], tails[i/(len(bases)*len(refs))%len(tails)]
+					mk := Op{K: "R", A: ref}
+					if i/(len(bases)*len(refs)*len(tails)) == 1 {
+						mk = Op{K: "c"}
+					}
+					ops := append([]Op{mk}, tail...)
+					ops = append(ops, Op{K: "q", A: "a"}, Op{K: "q", Slot: 1, A: "a"})
+					hc := histCase{defaultCfg, nil, b, ops, "takes-over-from-base", i}
+					if h, steps, so := c.cmpHist(d, defaultCfg, nil, b, ops, allButVerrs, "takes-over-from-base", i); h != nil {
+						c13Check(c, hc, steps, so)
+						c13Replay(c, hc)
+					}
+				})
+				c.Pool.Run(len(bases)*len(predefinedProfiles), func(d *Driver, i int) {
+					b, p := bases[i%len(bases)], predefinedProfiles[i/len(bases)]
+					orig, err := implParseURL(defaultCfg.Parser, nil, b)
+					if err != nil || orig == nil {
+						return
+					}
+					orig.SearchParams()
+					before := obsLeft(orig)
+					func() {
+						defer func() { recover() }()
+						cl := orig.Clone()
+						canonicalizer.VerifCanonicalize(p.Parser, cl)
+						if r, err := orig.Parse("#x"); err == nil {
+							canonicalizer.VerifCanonicalize(p.Parser, r)
+						}
+					}()
+					c.Count("canonclone\x00"+b+p.ID, true, "canonicalize-a-clone")
+					if after := obsLeft(orig); strings.Join(after, "\x00") != strings.Join(before, "\x00") {
+						c.Report(Finding{Class: "violation", What: fmt.Sprintf("canonicalizing a clone / a resolution result with profile %s changed the original %q: %q -> %q", p.Desc, b, before, after),
+							Case: Case{Kind: "hist", Cfg: p.Desc, Input: b, Family: "canonicalize-a-clone", Index: i}})
+					}
+				})
+			}
 			// the public method BasicParser called directly (what Url.Parse and the setters do internally): whatever the state
 			// override, the parser making the call (also another one than the one that produced the values) and the input, the
 			// base value and the original of the clone being filled are unchanged
@@ -640,6 +701,7 @@ func c13Check(c *Ctx, hc histCase, steps []Step, start Obs) {
 					}
 				}
 			}
+		case "D": // both URLs are written
 		case "A": // X.SetSearchParams(Y.SearchParams()): Y changes only in that its parameter list now exists
 			other, pother, name := s.B, prevB, "B"
 			if o.Slot == 1 {
@@ -781,9 +843,16 @@ func c12Agree(c *Ctx, hc histCase) {
 		h.step(o)
 		// who was written, and how (an operation that fails or finds an empty slot writes nothing)
 		switch o.K {
-		case "a", "d", "t", "o", "O":
+		case "a", "d", "t", "o", "O", "i":
 			if h.u[o.Slot] != nil {
 				mode[o.Slot] = "list"
+			}
+		case "D":
+			if h.u[0] != nil {
+				mode[0] = "list"
+				if h.u[1] != nil {
+					mode[1] = "list"
+				}
 			}
 		case "A":
 			if h.u[o.Slot] != nil && h.u[1-o.Slot] != nil {
